@@ -351,7 +351,8 @@ def krige_vecs3(ctx, variant, n, t, dim, exact):
 COND_PARAMS = [{"variant": v, "norm": nk, "mean": mk, "trend": tk, "dim": d}
                for v in ("simple", "ordinary", "universal", "extdrift", "detrended", "universal+ext")
                for nk in ("none", "LogNormal", "generic")
-               for (mk, tk, d) in (("const", "callable", 2), ("callable", "const", 1), ("none", "none", 1))
+               for (mk, tk, d) in (("const", "callable", 2), ("callable", "const", 1), ("none", "none", 1),
+                                   ("callable", "callable", 2))     # callable mean on an anisotropic, rotated model
                if not (v == "detrended" and (nk != "none" or mk != "none"))
                and not (v in ("ordinary", "universal", "extdrift") and mk != "none" and tk == "const")]
 
